@@ -19,3 +19,255 @@ proof fn lemma_insert_keeps_reach(t: &RawTableInner, t2: &RawTableInner, idx: in
     }
     assert(t2.reach_at(i, h, k));
 }
+
+// ((p + b) % n - p) % n == b: bucket (p + b) % n sits at offset b of the window that starts at p
+proof fn lemma_window_offset(p: int, b: int, n: int)
+    requires 0 <= p < n, 0 <= b < n,
+    ensures ((p + b) % n - p) % n == b,
+{
+    lemma_small_mod(b as nat, n as nat);
+    if p + b < n {
+        lemma_small_mod((p + b) as nat, n as nat);
+    } else {
+        let s = p + b - n;
+        lemma_small_mod(s as nat, n as nat);
+        lemma_mod_add_multiples_vanish(s, n);
+        assert((p + b) % n == s);
+        lemma_mod_add_multiples_vanish(b - n, n);
+        assert((b - n) % n == b);
+    }
+}
+
+// what find_insert_slot establishes at the point where it returns from window k: the bucket it found in
+// that window (any bucket at all for tables smaller than a group) is reachable for the hash it probed with
+proof fn lemma_slot_reach(t: &RawTableInner, h: u64, k: nat, g: nat, pos: int, b: int, idx: int, i: int)
+    requires
+        t.shape(),
+        t.nb() >= Group::WIDTH ==> t.nb() == Group::WIDTH * pow2(g) && (k as int) < pow2(g),
+        t.nb() < Group::WIDTH ==> k == 0,
+        pos == spec_pos(h as usize as int, t.nb(), k), 0 <= pos < t.nb(),
+        0 <= b < Group::WIDTH, idx == (pos + b) % t.nb(),
+        forall|j: nat, tt: int| j < k && 0 <= tt < Group::WIDTH ==> #[trigger] t.win(spec_pos(h as usize as int, t.nb(), j), tt) < 0x80u8,
+        0 <= i < t.nb(), t.nb() >= Group::WIDTH ==> i == idx,
+    ensures
+        t.reach_at(i, h, k),
+{
+    let n = t.nb();
+    lemma_mod_bound(i - pos, n);
+    if n >= Group::WIDTH {
+        lemma_window_offset(pos, b, n);
+        assert(n / (Group::WIDTH as int) == pow2(g)) by(nonlinear_arith) requires n == Group::WIDTH * pow2(g), Group::WIDTH > 0;
+    }
+}
+
+// L5: lookup is complete.  A bucket i that is reachable for hash h, carries h's tag and is accepted by eq
+// contradicts the certificate find_inner returns with `None` -- so find_inner cannot answer None for it.
+proof fn lemma_find_complete(t: &RawTableInner, i: int, h: u64, kk: nat, f: spec_fn(usize) -> bool)
+    requires
+        t.shape(), t.mirrored(), 0 <= i < t.nb(),
+        t.ctrl@[i] == spec_tag(h), spec_tag(h) < 0x80u8,
+        t.reach(i, h), f(i as usize),
+        t.none_witness(h as usize as int, kk, spec_tag(h), f),
+    ensures false,
+{
+    let n = t.nb();
+    let start = h as usize as int;
+    let k = choose|k: nat| #[trigger] t.reach_at(i, h, k);
+    assert(t.reach_at(i, h, k));
+    if k <= kk {
+        let p = spec_pos(start, n, k);
+        lemma_pos_range(start, n, k);
+        assert(t.window_rejects(start, k, spec_tag(h), f));
+        if n >= Group::WIDTH {
+            let tt = (i - p) % n;
+            lemma_window_index(i, p, n);
+            lemma_mirror_read(t, p + tt);
+            assert(t.win(p, tt) == spec_tag(h));
+        } else {
+            // one window holds every bucket: buckets p.. at offsets 0.., buckets 0..p-1 through the mirror
+            let tt = if i >= p { i - p } else { Group::WIDTH + i - p };
+            assert(0 <= tt < Group::WIDTH);
+            if i >= p {
+                lemma_small_mod(i as nat, n as nat);
+            } else {
+                assert(t.ctrl@[Group::WIDTH + i] == t.ctrl@[i]);
+                lemma_width_multiple(t);
+                if n == 4 { assert((Group::WIDTH + i) % 4 == i); } else { assert((Group::WIDTH + i) % 8 == i); }
+            }
+            assert(t.win(p, tt) == spec_tag(h));
+            assert((p + tt) % n == i);
+        }
+    } else {
+        let tt = choose|tt: int| 0 <= tt < Group::WIDTH && #[trigger] t.win(spec_pos(start, n, kk), tt) == 0xFFu8;
+        assert(t.win(spec_pos(start, n, kk), tt) != 0xFFu8);
+    }
+}
+
+proof fn lemma_mod_shift(a: int, b: int, d: int, n: int)
+    requires n > 0, a % n == b % n,
+    ensures (a + d) % n == (b + d) % n,
+{
+    lemma_add_mod_noop(a, d, n);
+    lemma_add_mod_noop(b, d, n);
+}
+
+proof fn lemma_tz_hit(l: Seq<bool>)
+    ensures 0 <= spec_tz(l) <= l.len(), spec_tz(l) < l.len() ==> l[spec_tz(l)],
+    decreases l.len(),
+{
+    if l.len() == 0 || l[0] {
+    } else {
+        let rest = l.subrange(1, l.len() as int);
+        lemma_tz_hit(rest);
+        if spec_tz(rest) < rest.len() {
+            assert(rest[spec_tz(rest)] == l[spec_tz(rest) + 1]);
+        }
+    }
+}
+
+proof fn lemma_lz_hit(l: Seq<bool>)
+    ensures 0 <= spec_lz(l) <= l.len(), spec_lz(l) < l.len() ==> l[l.len() - 1 - spec_lz(l)],
+    decreases l.len(),
+{
+    if l.len() == 0 || l[l.len() - 1] {
+    } else {
+        let rest = l.subrange(0, l.len() - 1);
+        lemma_lz_hit(rest);
+        if spec_lz(rest) < rest.len() {
+            assert(rest[rest.len() - 1 - spec_lz(rest)] == l[rest.len() - 1 - spec_lz(rest)]);
+        }
+    }
+}
+
+// erase, tables of at least one group: when leading_zeros + trailing_zeros < WIDTH the two scans pin down
+// an EMPTY byte on either side of the bucket (the gap witness)
+proof fn lemma_gap_witness(t: &RawTableInner, index: usize, ib: usize, before: Seq<bool>, after: Seq<bool>)
+    requires
+        t.shape(), t.mirrored(), index < t.nb(), t.nb() >= Group::WIDTH,
+        t.ctrl@[index as int] < 0x80u8,
+        ib == index.wrapping_sub(Group::WIDTH) & t.bucket_mask,
+        before.len() == Group::WIDTH, after.len() == Group::WIDTH,
+        forall|k: int| 0 <= k < Group::WIDTH ==> before[k] == (t.ctrl@[ib + k] == 0xFFu8),
+        forall|k: int| 0 <= k < Group::WIDTH ==> after[k] == (t.ctrl@[index + k] == 0xFFu8),
+        spec_lz(before) + spec_tz(after) < Group::WIDTH,
+    ensures
+        t.gap_witness(index as int, spec_lz(before), spec_tz(after)),
+{
+    let n = t.nb();
+    let w = Group::WIDTH as int;
+    let lz = spec_lz(before);
+    let tz = spec_tz(after);
+    let m = t.bucket_mask;
+    lemma_lz_hit(before);
+    lemma_tz_hit(after);
+    lemma_index_before(index, m);
+    assert(!after[0]);
+    assert(tz >= 1);
+    // the EMPTY byte found by the scan after the bucket
+    assert(after[tz]);
+    assert(t.ctrl@[index + tz] == 0xFFu8);
+    lemma_mirror_read(t, index + tz);
+    // the EMPTY byte found by the scan before the bucket
+    assert(before[w - 1 - lz]);
+    assert(t.ctrl@[ib + (w - 1 - lz)] == 0xFFu8);
+    lemma_mirror_read(t, ib + (w - 1 - lz));
+    // (ib + WIDTH) % n == index
+    lemma_index2(index, m);
+    lemma_small_mod(index as nat, n as nat);
+    if index < Group::WIDTH {
+        lemma_mod_add_multiples_vanish(index as int, n);
+    }
+    assert((ib + w) % n == index as int);
+    lemma_mod_shift(ib + w, index as int, -1 - lz, n);
+}
+
+// L2: erase keeps every other reachability certificate.  Writing DELETED never creates an EMPTY byte;
+// writing EMPTY happens only under the gap witness, and then every probe window containing the bucket
+// already held an EMPTY byte -- so no certificate passes through such a window.
+proof fn lemma_erase_keeps_reach(t: &RawTableInner, t2: &RawTableInner, index: int, c: u8, lz: int, tz: int, i: int, h: u64)
+    requires
+        t.shape(), t.mirrored(), t2.shape(), t2.bucket_mask == t.bucket_mask,
+        0 <= index < t.nb(),
+        c == 0xFFu8 || c == 0x80u8,
+        t2.ctrl@ == t.ctrl@.update(index, c).update(t.mirror_index(index), c),
+        (t.nb() >= Group::WIDTH && c == 0xFFu8) ==> t.gap_witness(index, lz, tz),
+        t.reach(i, h),
+    ensures
+        t2.reach(i, h),
+{
+    let k = choose|k: nat| #[trigger] t.reach_at(i, h, k);
+    let n = t.nb();
+    let w = Group::WIDTH as int;
+    let start = h as usize as int;
+    assert forall|j: nat, tt: int| j < k && 0 <= tt < Group::WIDTH implies #[trigger] t2.win(spec_pos(start, n, j), tt) != 0xFFu8 by {
+        let pj = spec_pos(start, n, j);
+        lemma_pos_range(start, n, j);
+        assert(t.win(pj, tt) != 0xFFu8);
+        let q = pj + tt;
+        if c == 0xFFu8 && (q == index || q == t.mirror_index(index)) {
+            // n >= WIDTH here: tables smaller than a group have k == 0
+            assert(n >= Group::WIDTH);
+            lemma_small_mod(index as nat, n as nat);
+            if q != index {
+                lemma_mod_add_multiples_vanish(index, n);
+            }
+            assert(q % n == index % n);
+            if tt >= lz + 1 {
+                let o = tt - lz - 1;
+                lemma_mirror_read(t, pj + o);
+                lemma_mod_shift(q, index, -1 - lz, n);
+                assert(t.win(pj, o) == 0xFFu8);
+            } else {
+                let o = tt + tz;
+                lemma_mirror_read(t, pj + o);
+                lemma_mod_shift(q, index, tz, n);
+                assert(t.win(pj, o) == 0xFFu8);
+            }
+            assert(false);
+        }
+    }
+    assert(t2.reach_at(i, h, k));
+}
+
+// F2 of the whole table is kept by insertion into a slot that is reachable for the new hash ...
+proof fn lemma_insert_keeps_f2(t: &RawTableInner, t2: &RawTableInner, idx: int, h: u64, hs: Map<int, u64>)
+    requires
+        t.shape(), t2.shape(), t2.bucket_mask == t.bucket_mask,
+        0 <= idx < t.nb(), spec_tag(h) < 0x80u8,
+        t2.ctrl@ == t.ctrl@.update(idx, spec_tag(h)).update(t.mirror_index(idx), spec_tag(h)),
+        t.f2(hs), t.reach(idx, h),
+    ensures
+        t2.f2(hs.insert(idx, h)),
+{
+    let hs2 = hs.insert(idx, h);
+    assert forall|i: int| 0 <= i < t2.nb() && #[trigger] t2.ctrl@[i] < 0x80u8 implies
+        hs2.dom().contains(i) && t2.ctrl@[i] == spec_tag(hs2[i]) && t2.reach(i, hs2[i]) by {
+        if i == idx {
+            lemma_insert_keeps_reach(t, t2, idx, spec_tag(h), idx, h);
+        } else {
+            assert(t2.ctrl@[i] == t.ctrl@[i]);
+            lemma_insert_keeps_reach(t, t2, idx, spec_tag(h), i, hs[i]);
+        }
+    }
+}
+
+// ... and by erase (either byte it may write), for the remaining elements
+proof fn lemma_erase_keeps_f2(t: &RawTableInner, t2: &RawTableInner, index: int, c: u8, lz: int, tz: int, hs: Map<int, u64>)
+    requires
+        t.shape(), t.mirrored(), t2.shape(), t2.bucket_mask == t.bucket_mask,
+        0 <= index < t.nb(),
+        c == 0xFFu8 || c == 0x80u8,
+        t2.ctrl@ == t.ctrl@.update(index, c).update(t.mirror_index(index), c),
+        (t.nb() >= Group::WIDTH && c == 0xFFu8) ==> t.gap_witness(index, lz, tz),
+        t.f2(hs),
+    ensures
+        t2.f2(hs.remove(index)),
+{
+    let hs2 = hs.remove(index);
+    assert forall|i: int| 0 <= i < t2.nb() && #[trigger] t2.ctrl@[i] < 0x80u8 implies
+        hs2.dom().contains(i) && t2.ctrl@[i] == spec_tag(hs2[i]) && t2.reach(i, hs2[i]) by {
+        assert(i != index);
+        assert(t2.ctrl@[i] == t.ctrl@[i]);
+        lemma_erase_keeps_reach(t, t2, index, c, lz, tz, i, hs[i]);
+    }
+}
